@@ -882,6 +882,8 @@ def reaches_param_avoiding(t, pname, barrier, target=None, assume=None):
                 return True
             continue
         args = x.args[1:] if x.op == 'gamma' else x.args
+        if x.op == 'mu' and isinstance(getattr(x, 'next', None), T):
+            stack.append(x.next)            # the value the loop carries back (what its body stored / rebound)
         if x.op == 'gamma' and assume is not None:
             c, pol = cond_polarity(x.args[0])
             v = assume(c)
